@@ -128,6 +128,17 @@ def check(ctx, rep, upto=None):
         rep.anchor_lost('R0', 'cell/state fields of SingletonHolder (%s/%s)' % (cellf, statef))
         return
     cellf, statef = cellf[0], statef[0]
+    # what the cell holds: Option<Arc<T>> or a private two-variant enum of the same shape (`Slot { Vacant, Occupied(Arc<T>) }`)
+    EMPTY, FULL = 'None', 'Some'
+    cty_ = next((f['ty'] for f in fields if f['name'] == cellf), '')
+    if cty_.startswith('core::cell::UnsafeCell<'):
+        ih_ = type_head(cty_[len('core::cell::UnsafeCell<'):-1])
+        ia_ = mac.adts.get(ih_)
+        if ia_ and ia_['kind'] == 'Enum' and len(ia_['variants']) == 2:
+            e_ = [v for v in ia_['variants'] if not v['fields']]
+            f_ = [v for v in ia_['variants'] if len(v['fields']) == 1 and v['fields'][0]['ty'].startswith('alloc::sync::Arc<')]
+            if len(e_) == 1 and len(f_) == 1:
+                EMPTY, FULL = e_[0]['name'], f_[0]['name']
     m = {}
     for name in ('set', 'get', 'is_set', 'new'):
         bs = mac.method(H, name)
@@ -153,7 +164,7 @@ def check(ctx, rep, upto=None):
         if cv is not None and not term_callee_is(cv, 'core::cell::UnsafeCell::new'):
             inner_cell = [y for y in walk(cv) if term_callee_is(y, 'core::cell::UnsafeCell::new')]
             cv = inner_cell[0] if len(inner_cell) == 1 else cv          # the cell inside its private wrapper
-        oknew = E is not None and cv is not None and term_callee_is(cv, 'core::cell::UnsafeCell::new') and cv[2][0][0] == 'adt' and cv[2][0][2] == 'None'
+        oknew = E is not None and cv is not None and term_callee_is(cv, 'core::cell::UnsafeCell::new') and cv[2][0][0] == 'adt' and cv[2][0][2] == EMPTY
     rep.ob('R4', 'new/initial-state', oknew, m['new'].where(), 'new() = (state: INITIAL=%s, value: None)' % E if oknew else 'new() does not start as (constant state, None)')
     if E is None:
         return
@@ -177,7 +188,7 @@ def check(ctx, rep, upto=None):
                     news2 = [y for y in news2 if term_callee_is(y, AT + 'new')]
                     okd = len(news2) == 1 and evalc(mac, news2[0][2][0])[0] == 'const' and evalc(mac, news2[0][2][0])[2] == E
                     cv2 = fs2.get(cellf)
-                    okd = okd and cv2 is not None and term_callee_is(cv2, 'core::cell::UnsafeCell::new') and cv2[2][0][0] == 'adt' and cv2[2][0][2] == 'None'
+                    okd = okd and cv2 is not None and term_callee_is(cv2, 'core::cell::UnsafeCell::new') and cv2[2][0][0] == 'adt' and cv2[2][0][2] == EMPTY
             rep.ob('R4', 'default/initial-state', okd, m['new'].where(), 'Default::default() = (INITIAL, None)' if okd else 'Default::default() does not start as (INITIAL, None)')
     # ---- get() (and any other method of the holder that reads the cell): R3
     def reader_check(rname, rbody, view_ok=False):
@@ -394,7 +405,7 @@ def check(ctx, rep, upto=None):
                         vals.append(ct[2][1])
                     else:
                         vals.append(('unknown', ct[1]))
-        okv = bool(vals) and all(v[0] == 'adt' and v[2] == 'Some' and term_callee_is(dict(v[3])['0'], 'alloc::sync::Arc::new') and dict(v[3])['0'][2][0] == ('param', 2) for v in vals)
+        okv = bool(vals) and all(v[0] == 'adt' and v[2] in ('Some', FULL) and (v[2] == FULL or v[1] == 'core::option::Option') and term_callee_is(dict(v[3])['0'], 'alloc::sync::Arc::new') and dict(v[3])['0'][2][0] == ('param', 2) for v in vals)
         rep.ob('R2', 'set/stores-the-given-client', okv, m['set'].where(), 'cell := Some(Arc::new(val))')
     # ---- R4 frame over the crate
     offenders = []
@@ -515,6 +526,11 @@ def check(ctx, rep, upto=None):
             continue
         for bi, t in b.calls():
             if t.get('resolved') == m['set'].path or strip_generics(t.get('callee_full', '')).endswith('SingletonHolder::set'):
+                # filling a holder this very function has just created (`impl From<T> for SingletonHolder<T>`) installs nothing
+                # in a holder anybody else can see
+                rc_ = peel(norm(Terms(b).call_term(bi))[2][0])
+                if rc_[0] == 'call' and isinstance(rc_[1], str) and strip_generics(rc_[1]) == strip_generics(m['new'].path):
+                    continue
                 setters.append(b)
     pub_set = 'cadence_macros::state::set_global_default'
     region_set = private_region(mac, mac.bodies[pub_set]) | {pub_set} if pub_set in mac.bodies else set()
